@@ -553,7 +553,8 @@ pub fn gen_raw_image(rng: &mut Rng) -> Vec<u16> {
         3 => 0x8000u16.wrapping_sub(rng.below(0x20) as u16),
         _ => rng.below(0xFE00) as u16,
     };
-    let n = match rng.below(6) {
+    let n = match rng.below(7) {
+        6 => 0, // empty image: only the implicit HALT
         0 => 1 + rng.below(4),
         1 => 100 + rng.below(300),
         _ => 5 + rng.below(40),
